@@ -127,7 +127,8 @@ def corrupt(inst, rows: list, nb: int, rng: random.Random) -> tuple:
         for q in rows:
             q[1] -= 1
     elif kind == "nb":
-        nb = nb + rng.choice([-1, 1, 2])
+        # (-1 is what a freshly created Packing stores for "not assigned yet")
+        nb = rng.choice([nb - 1, nb + 1, nb + 2, -1, -1, 0, -nb, -2])
     elif kind == "rotate":
         w, h = r[4] - r[2], r[5] - r[3]
         r[4], r[5] = r[2] + h, r[3] + w
